@@ -1,0 +1,21 @@
+//go:build verif
+
+// Contracts for package clients (comment-only; read by /verif/govc).
+
+package clients
+
+// ---- request encoding (C12) -------------------------------------------------------------------
+// Every command ends in " " + the serialised regex: "<mode>:<options> <file> regex:<flag> <pattern>".
+//@ func (GrepClient).makeCommands
+//@   requires [regex] c.baseClient.Regex.initialized && len(c.baseClient.Regex.flags) == 1
+//@   ensures [regex-last] forall(i, 0, len(commands), hasSuffix(commands[i], " regex:" + flagName(c.baseClient.Regex.flags[0]) + " " + c.baseClient.Regex.regexStr))
+//@   loop 1 invariant [regex-last] forall(i, 0, len(commands), hasSuffix(commands[i], " regex:" + flagName(c.baseClient.Regex.flags[0]) + " " + c.baseClient.Regex.regexStr)) && regex == "regex:" + flagName(c.baseClient.Regex.flags[0]) + " " + c.baseClient.Regex.regexStr
+//@ func (CatClient).makeCommands
+//@   requires [regex] c.baseClient.Regex.initialized && len(c.baseClient.Regex.flags) == 1
+//@   ensures [regex-last] forall(i, 0, len(commands), hasSuffix(commands[i], " regex:" + flagName(c.baseClient.Regex.flags[0]) + " " + c.baseClient.Regex.regexStr))
+//@   loop 1 invariant [regex-last] forall(i, 0, len(commands), hasSuffix(commands[i], " regex:" + flagName(c.baseClient.Regex.flags[0]) + " " + c.baseClient.Regex.regexStr)) && regex == "regex:" + flagName(c.baseClient.Regex.flags[0]) + " " + c.baseClient.Regex.regexStr
+
+// The client's regex object: '', '.', '.*' become the noop regex, otherwise the
+// default or (with --invert) the invert flag and the pattern as given.
+//@ func (*baseClient).init
+//@   at-call regex.New [flag-from-args] arg0 == c.Args.RegexStr && arg1 == ite(c.Args.RegexInvert, 2, 1)
